@@ -210,6 +210,8 @@ DCP_CONTRACTS = [
                       ("queued-records-flushed-by-process_inbound_queue",
                        "n_calls('process_inbound_queue') == 1 and len(self._inbound_record_queue) == 0"),
                       ("manager-told-once", "bcalls('have_peer') == 1 and bcall_recv('have_peer', 0) is manager"),
+                      ("loss-of-the-selected-link-will-be-reported",
+                       "bcalls('when_fired') == 1 and bcalls('addCallback') == 1"),
                       ("invariant-kept", DCP_INV)],
              note="select() has a row only after got_kcm: a Follower link is used only once the Leader's KCM arrived on it"),
 ]
@@ -516,6 +518,14 @@ def tasks():
             out.append(ContractTask(c, regf_mgr))
         else:
             out.append(ContractTask(c, regf_roles))
+    # noticing a lost connection (the precondition of any re-convergence) rests on the Leader's timer discipline:
+    # C16's timer tasks are run here too, so that a change which wedges the timer fails this check as well
+    from . import c16
+    for t in c16.tasks():
+        n = t.contract.target
+        if n.startswith("lemma:timer_expiry") or n.endswith(("Manager._send_ping_reset_timer", "Manager._stop_using_connection",
+                                                             "Manager.connector_connection_lost")):
+            out.append(t)
     return out
 
 
